@@ -77,367 +77,375 @@ def run(eng, R):
         return any(_is_call_on(c, "notify_parents", recv_self=True) for c in eng.calls_in_parts(n.ast_parts()))
 
     # ---- B1: stores into _children register the parent and mark self --------------------------------
-    R.rule("B1a", "every store that inserts a node into self._children is followed on all normal paths by <node>.add_parent(self)", 4)
-    R.rule("B1b", "every method that stores into self._children calls self.mark_for_update() on every normal path", 4)
-    for cls, f in eng.functions_of_family(NodeBase):
-        if f.name == "__init__":
-            continue
-        g = eng.cfg(f)
-        summ = eng.eff.summary(cls, f)
-        stores = [s for s in summ.sites if s.kind == "w" and s.path == "_children"]
-        if not stores:
-            continue
-        inserting = []
-        for s in stores:
-            st = s.node
-            if s.how == "rebind" and isinstance(st, ast.Assign):
-                kind, names = inserted_elements(st.value)
-                if kind == "some":
-                    inserting.append((s, names))
-            elif s.how == "content":
-                inserting.append((s, ["<item assigned>"]))
-            elif s.how == "call-mutator":
-                attr = s.node.func.attr
-                if attr in ("append", "extend", "insert", "add"):
-                    inserting.append((s, ["<%s argument>" % attr]))
-        sat_parent = eng.satisfying_nodes(cls, f, has_add_parent_self)
-        # all-elements idiom: `for c in self._children: c.add_parent(self)` (zero iterations = nothing was inserted)
-        # (the loop may run over self._children or over the local list that was just stored there)
-        stored_locals = {st_.value.id for st_ in ast.walk(f.node) if isinstance(st_, ast.Assign) and any(self_attr(t) == "_children" for t in st_.targets) and isinstance(st_.value, ast.Name)}
-        for n in g.nodes:
-            if n.kind == "for" and (self_attr(n.expr) == "_children" or (isinstance(n.expr, ast.Name) and n.expr.id in stored_locals)) and isinstance(n.stmt.target, ast.Name):
-                for c in ast.walk(n.stmt):
-                    if isinstance(c, ast.Call) and _is_call_on(c, "add_parent", arg0_self=True) and isinstance(c.func.value, ast.Name) \
-                            and c.func.value.id == n.stmt.target.id and not common.guard_conditions_inside(n.stmt, c):
-                        sat_parent.add(n.id)
-        for s, names in inserting:
-            cn = common.cfg_node_of(g, s.node)
-            ok, wit = g.all_paths_pass(cn.id, lambda n: n.id in sat_parent)
-            R.ob("B1a", "%s:%s" % (f.qualname, norm_stmt(s.node)), ok, eng.where(f, s.node),
-                 "%s inserts %s into _children without registering itself as parent on path %s" % (f.qualname, names, path_text(f, wit or [])) if not ok else
-                 "%s registers parent after inserting %s" % (f.qualname, names))
-        ok = eng.must_call(cls, f, has_mark_self)
-        # mark may happen before the store as well (it only sets flags) -> whole-method must-call
-        R.ob("B1b", f.qualname, ok, eng.where(f),
-             "%s changes _children but does not mark itself for update on every path (parents keep values computed from the old children)" % f.qualname if not ok
-             else "%s marks itself for update" % f.qualname)
-
-    # ---- B2: raw staleness writes are followed by notify_parents ------------------------------------
-    R.rule("B2", "every assignment self._stale=True / self._frozen=False outside __init__ is followed on all normal paths by self.notify_parents()", 2)
-    for cls, f in eng.functions_of_family(NodeBase):
-        if f.name == "__init__":
-            continue
-        g = eng.cfg(f)
-        for n in g.stmt_nodes():
-            st = n.stmt
-            if n.kind != "stmt" or not isinstance(st, ast.Assign):
+    with R.guard("B1: stores into _children register the parent and mark self"):
+        R.rule("B1a", "every store that inserts a node into self._children is followed on all normal paths by <node>.add_parent(self)", 4)
+        R.rule("B1b", "every method that stores into self._children calls self.mark_for_update() on every normal path", 4)
+        for cls, f in eng.functions_of_family(NodeBase):
+            if f.name == "__init__":
                 continue
-            for t in st.targets:
-                a = self_attr(t)
-                if a in ("_stale", "_frozen") and isinstance(st.value, ast.Constant):
-                    if (a == "_stale" and st.value.value is True) or (a == "_frozen" and st.value.value is False):
-                        sat = eng.satisfying_nodes(cls, f, has_notify_self)
-                        ok, wit = g.all_paths_pass(n.id, lambda m: m.id in sat)
-                        R.ob("B2", "%s:%s" % (f.qualname, norm_stmt(st)), ok, eng.where(f, st),
-                             ("%s sets %s=%s without notifying parents (ancestors keep cached values): %s" % (f.qualname, a, st.value.value, path_text(f, wit or [])))
-                             if not ok else "%s notifies parents after %s" % (f.qualname, norm_stmt(st)))
-
-    # ---- B3: value setters notify; update() overrides produce value and clear stale -------------------
-    R.rule("B3a", "ValueNode.value setter (and every override with a normal exit) reaches self.notify_parents()", 1)
-    R.rule("B3b", "every update() override assigns self._value and self._stale=False on every normal path", 5)
-    R.rule("B3c", "update() reads its inputs through .value (self-updating), never another node's raw _value", 5)
-    R.rule("B3d", "update() evaluates the node's function at most once (no evaluation inside a loop, one call site per path)", 2)
-    for cls in family:
-        if not cls.is_subclass_of(ValueNode):
-            continue
-        pr = cls.props.get("value")
-        if pr is not None and pr.fset is not None and pr.fset.cls is cls:
-            f = pr.fset
             g = eng.cfg(f)
-            has_normal_exit = g.exit.id in g.reachable_from([g.entry.id], exceptional=False)
-            if has_normal_exit:
-                ok = eng.must_call(cls, f, has_notify_self)
-                R.ob("B3a", f.qualname, ok, eng.where(f), "%s does not notify parents on every path" % f.qualname if not ok else "%s notifies parents" % f.qualname)
-            else:
-                R.ob("B3a", f.qualname, True, eng.where(f), "%s always raises (read-only node)" % f.qualname, nontrivial=False)
-        f = cls.methods.get("update")
-        if f is None:
-            continue
-        g = eng.cfg(f)
-
-        def writes_value(n):
-            if n.kind not in ("stmt",):
-                return False
-            st = n.stmt
-            tg = st.targets if isinstance(st, ast.Assign) else ([st.target] if isinstance(st, (ast.AugAssign, ast.AnnAssign)) else [])
-            for t in tg:
-                if self_attr(t) == "_value":
-                    return True
-                if isinstance(t, ast.Subscript) and self_attr(t.value) == "_value":
-                    return True
-            return False
-
-        def clears_stale(n):
-            st = n.stmt
-            return n.kind == "stmt" and isinstance(st, ast.Assign) and any(self_attr(t) == "_stale" for t in st.targets) and isinstance(st.value, ast.Constant) and st.value.value is False
-
-        # in-place fill inside a loop: the loop header dominates; accept a write inside a for-body when the loop iterates over children
-        wv_nodes = [n for n in g.stmt_nodes() if writes_value(n)]
-        ok_v = bool(wv_nodes)
-        if wv_nodes:
-            ok_path, _ = g.all_paths_pass(g.entry.id, lambda n: writes_value(n) or (n.kind == "for" and any(writes_value(m) for m in g.nodes if m.stmt is not None and _inside(n.stmt, m.stmt))))
-            ok_v = ok_path
-        ok_s, _ = g.all_paths_pass(g.entry.id, clears_stale)
-        R.ob("B3b", f.qualname, ok_v and ok_s, eng.where(f),
-             ("%s: a normal path leaves update() without %s" % (f.qualname, "assigning _value" if not ok_v else "clearing _stale")) if not (ok_v and ok_s)
-             else "%s assigns _value and clears _stale" % f.qualname)
-        raw = [n for n in walk_no_nested(f.node) if isinstance(n, ast.Attribute) and n.attr == "_value" and not is_self(n.value)]
-        R.ob("B3c", f.qualname, not raw, eng.where(f, raw[0] if raw else None),
-             "%s reads a child's raw _value (%s) - a stale child would be used without being updated" % (f.qualname, norm_stmt(raw[0]) if raw else ""))
-        evals = []
-        for n in g.stmt_nodes():
-            for c in eng.calls_in_parts(n.ast_parts()):
-                if is_self(c.func) or (isinstance(c.func, ast.Attribute) and is_self(c.func.value) and c.func.attr in ("_func", "func", "__call__")):
-                    evals.append((n, c))
-        if evals:
-            in_loop = [n for n, c in evals if common.in_loop(f.node, c)]
-            multi = False
-            if len(evals) > 1:
-                for n1, _ in evals:
-                    for n2, _ in evals:
-                        if n1.id != n2.id and n2.id in g.reachable_from([n1.id], exceptional=False) and n1.id != n2.id:
-                            multi = True
-            R.ob("B3d", f.qualname, not in_loop and not multi, eng.where(f), "%s may evaluate the node function more than once per update" % f.qualname)
-
-    # ---- B9: a node depends on the nodes it was given (an alias of an alias is a parent of that alias, not of its target)
-    R.rule("B9", "node constructors store the nodes they are given as children unchanged: no argument is replaced by something reached through it (ref.ref, node.children …) "
-                 "before it becomes a child", 2)
-    for cls in family:
-        ini = cls.methods.get("__init__")
-        if ini is None:
-            continue
-        params = [a.arg for a in ini.node.args.args[1:]]
-        child_params = set()
-        for n in ast.walk(ini.node):
-            if isinstance(n, ast.Assign) and any(self_attr(t) in ("ref", "parameters", "_parameters", "_children") for t in n.targets):
-                child_params |= {x.id for x in ast.walk(n.value) if isinstance(x, ast.Name) and x.id in params}
-            if isinstance(n, ast.Call) and isinstance(n.func, ast.Attribute) and is_self(n.func.value) and n.func.attr in ("set_children", "add_child", "set_parents"):
-                child_params |= {x.id for a in n.args for x in ast.walk(a) if isinstance(x, ast.Name) and x.id in params}
-        for q in sorted(child_params):
-            bad = []
-            for n in ast.walk(ini.node):
-                if isinstance(n, ast.Assign) and any(isinstance(t, ast.Name) and t.id == q for t in n.targets):
-                    for x in ast.walk(n.value):
-                        if isinstance(x, (ast.Attribute, ast.Subscript)) and any(isinstance(y, ast.Name) and y.id == q for y in ast.walk(x.value)):
-                            bad.append("%s = %s" % (q, " ".join(ast.unparse(n.value).split())))
-            R.ob("B9", "%s.__init__:%s" % (cls.name, q), not bad, eng.where(ini),
-                 "%s.__init__ replaces its argument `%s` by something reached through it (%s) before storing it as a child: the node no longer depends on the node it was given "
-                 "(replacing or freezing that node is not seen)" % (cls.name, q, "; ".join(bad)))
-
-    # ---- B8: update() leaves no stale child behind (dependency-only children included)
-    R.rule("B8", "update() of a node whose children are not all function parameters brings every stale, non-frozen child up to date before it clears its own flag "
-                 "(otherwise a fresh node sits above a stale child and later marks of that child are swallowed)", 1)
-    for cls in family:
-        f = cls.methods.get("update")
-        if f is None:
-            continue
-        if not any("_parameters" in {s.path for s in eng.eff.summary(cls, ff).sites} for c2, ff in eng.functions_of_family(cls) if c2 is cls):
-            continue
-        g = eng.cfg(f)
-        ok = False
-        for n in g.nodes:
-            if n.kind != "for":
-                continue
-            it = n.expr
-            over_children = (isinstance(it, ast.Call) and isinstance(it.func, ast.Attribute) and it.func.attr == "get_children" and is_self(it.func.value)) or self_attr(it) == "_children"
-            if not over_children or not isinstance(n.stmt.target, ast.Name):
-                continue
-            tv = n.stmt.target.id
-            for c in ast.walk(n.stmt):
-                if isinstance(c, ast.Call) and isinstance(c.func, ast.Attribute) and c.func.attr == "update" and isinstance(c.func.value, ast.Name) and c.func.value.id == tv:
-                    nf = common.conj_normal_form([(t, pol) for t, pol in common.guard_conditions_inside(n.stmt, c)])
-                    names = {a.split(".")[-1] for a, _ in nf}
-                    if not nf or all((("stale" in a and pol) or ("frozen" in a and not pol)) for a, pol in nf):
-                        ok = True
-                if isinstance(c, ast.Attribute) and c.attr == "value" and isinstance(c.value, ast.Name) and c.value.id == tv and not common.guard_conditions_inside(n.stmt, c):
-                    ok = True
-            if ok:
-                clears = [m for m in g.stmt_nodes() if m.kind == "stmt" and isinstance(m.stmt, ast.Assign) and any(self_attr(t) == "_stale" for t in m.stmt.targets)]
-                ok = all(g.dominated_by(m.id, lambda k, nid=n.id: k.id == nid)[0] for m in clears)
-        R.ob("B8", f.qualname, ok, eng.where(f), "%s evaluates its parameters but leaves dependency-only children stale: the node becomes fresh above a stale child, "
-             "so a later mark_for_update of that child stops there and this node keeps its cached value" % f.qualname)
-
-    # ---- B6: value getter updates iff stale and not frozen ------------------------------------------
-    R.rule("B6", "value getter: calls self.update() exactly under (stale and not frozen) and returns self._value", 1)
-    for cls in family:
-        pr = cls.props.get("value")
-        if pr is None or pr.fget is None or pr.fget.cls is not cls:
-            continue
-        f = pr.fget
-        g = eng.cfg(f)
-        if g.exit.id not in g.reachable_from([g.entry.id], exceptional=False):
-            continue  # Empty.value: always raises
-        upd = [n for n in g.stmt_nodes() if any(_is_call_on(c, "update", recv_self=True) for c in eng.calls_in_parts(n.ast_parts()))]
-        ok = False
-        why = "no self.update() call"
-        if upd:
-            conds = common.guard_conditions(f.node, upd[0].stmt)
-            nf = common.conj_normal_form(conds)
-            want = {("stale", True), ("frozen", False)}
-            ok = nf == want
-            why = "update() is guarded by %s, expected {stale, not frozen}" % sorted(nf) if not ok else ""
-        rets = [n for n in g.stmt_nodes() if isinstance(n.stmt, ast.Return)]
-        ret_ok = bool(rets) and all(self_attr(n.stmt.value) == "_value" for n in rets)
-        R.ob("B6", f.qualname, ok and ret_ok, eng.where(f), ("%s: %s" % (f.qualname, why or "does not return self._value")) if not (ok and ret_ok) else "%s ok" % f.qualname)
-
-    # ---- B4: mark_for_update / notify_parents shape -------------------------------------------------
-    R.rule("B4a", "mark_for_update sets _stale and notifies parents exactly when (not stale and not frozen); only Parameter may override it with a no-op", 2)
-    R.rule("B4b", "notify_parents calls mark_for_update on every parent (only RootNode, which has no parents, may be a no-op)", 2)
-    for cls in family:
-        f = cls.methods.get("mark_for_update")
-        if f is not None:
-            body = [s for s in f.node.body if not (isinstance(s, ast.Expr) and isinstance(s.value, ast.Constant))]
-            trivial = all(isinstance(s, ast.Pass) for s in body)
-            if trivial:
-                ok = cls.is_subclass_of(Parameter)
-                R.ob("B4a", f.qualname, ok, eng.where(f), "%s is a no-op: updates of its inputs never reach its parents" % f.qualname if not ok else "%s: leaf constant, no-op permitted" % f.qualname)
-            else:
-                g = eng.cfg(f)
-                sets = [n for n in g.stmt_nodes() if n.kind == "stmt" and isinstance(n.stmt, ast.Assign) and any(self_attr(t) == "_stale" for t in n.stmt.targets)]
-                notif = [n for n in g.stmt_nodes() if has_notify_self(n)]
-                ok = bool(sets) and bool(notif)
-                why = "does not set _stale and notify parents"
-                second = False
-                if ok:
-                    for n in sets + notif:
-                        nf = common.conj_normal_form(common.guard_conditions(f.node, n.stmt))
-                        if nf == {("stale", False), ("frozen", False)}:
-                            continue
-                        # a node that is already stale still tells parents that are not stale (a failed update under a Fallback leaves such a pair behind)
-                        extra = {a for a in nf if a not in (("stale", True), ("frozen", False))}
-                        if n in notif and ("stale", True) in nf and ("frozen", False) in nf and len(extra) == 1 and \
-                                "any((not _p.stale for _p in self.iter_parents()))" in "".join(x for x, pol in extra if pol).replace("any(not ", "any((not ").replace("_parents()))", "_parents()))"):
-                            second = True
-                            continue
-                        ok = False
-                        why = "%s is guarded by %s, expected {not stale, not frozen}" % (norm_stmt(n.stmt), sorted(nf))
-                    if ok and cls.name == "NodeBase":
-                        R.ob("B4a", f.qualname + ":stale node, fresh parent", second, eng.where(f),
-                             "%s returns early for every stale node: a node left stale by a failed update (its Fallback parent went on with an alternative) swallows the "
-                             "notification when its input is repaired, and the Fallback keeps the old value" % f.qualname)
-                    # value of the assignment
-                    for n in sets:
-                        if not (isinstance(n.stmt.value, ast.Constant) and n.stmt.value.value is True):
-                            ok = False
-                            why = "assigns %s" % norm_stmt(n.stmt)
-                R.ob("B4a", f.qualname, ok, eng.where(f), "%s: %s" % (f.qualname, why) if not ok else "%s ok" % f.qualname)
-        f = cls.methods.get("notify_parents")
-        if f is not None:
-            body = [s for s in f.node.body if not (isinstance(s, ast.Expr) and isinstance(s.value, ast.Constant))]
-            trivial = all(isinstance(s, ast.Pass) for s in body)
-            if trivial:
-                ok = cls.name == "RootNode"
-                R.ob("B4b", f.qualname, ok, eng.where(f), "%s is a no-op" % f.qualname)
-            else:
-                ok = False
-                for n in ast.walk(f.node):
-                    if isinstance(n, ast.For) and isinstance(n.iter, ast.Call) and isinstance(n.iter.func, ast.Attribute) and n.iter.func.attr in ("iter_parents", "get_parents") and is_self(n.iter.func.value) and isinstance(n.target, ast.Name):
-                        for c in ast.walk(n):
-                            if isinstance(c, ast.Call) and _is_call_on(c, "mark_for_update") and isinstance(c.func.value, ast.Name) and c.func.value.id == n.target.id:
-                                if not common.guard_conditions_inside(n, c):
-                                    ok = True
-                R.ob("B4b", f.qualname, ok, eng.where(f), "%s does not unconditionally mark every parent for update" % f.qualname if not ok else "%s ok" % f.qualname)
-
-    # ---- B5: Nexus edits end in a cycle check -------------------------------------------------------
-    R.rule("B5", "every Nexus method that inserts a node or an edge runs NodeCycleChecker on every normal path after the edit", 2)
-    R.rule("B5c", "NodeCycleChecker: raises when a node re-occurs on the current path and recurses over all parents", 2)
-
-    def is_cycle_check(n):
-        for c in eng.calls_in_parts(n.ast_parts()):
-            if isinstance(c.func, ast.Attribute) and c.func.attr == "run" and isinstance(c.func.value, ast.Call):
-                k = p.resolve_expr_to_class(mod, c.func.value.func)
-                if k is not None and k.name == "NodeCycleChecker":
-                    return True
-        return False
-
-    def is_struct_edit(n):
-        for c in eng.calls_in_parts(n.ast_parts()):
-            if isinstance(c.func, ast.Attribute) and c.func.attr in ("add_child", "replace", "replace_child", "set_children", "add_parameter") and not is_self(c.func.value):
-                return True
-        if n.kind == "stmt" and isinstance(n.stmt, ast.Assign):
-            for t in n.stmt.targets:
-                if isinstance(t, ast.Subscript) and self_attr(t.value) == "_nodes":
-                    return True
-        return False
-
-    for name, f in sorted(Nexus.methods.items()):
-        g = eng.cfg(f)
-        edits = [n for n in g.stmt_nodes() if is_struct_edit(n)]
-        if not edits:
-            continue
-        sat = eng.satisfying_nodes(Nexus, f, is_cycle_check)
-        for n in edits:
-            ok, wit = g.all_paths_pass(n.id, lambda m: m.id in sat)
-            R.ob("B5", "%s:%s" % (f.qualname, norm_stmt(n.stmt)), ok, eng.where(f, n.stmt),
-                 "%s edits the graph (%s) and can return without a cycle check: %s" % (f.qualname, norm_stmt(n.stmt)[:60], path_text(f, wit or [])) if not ok else "%s: cycle check after %s" % (f.qualname, norm_stmt(n.stmt)[:60]))
-    checker = p.cls(NEXUS_MOD, "NodeCycleChecker")
-    run_f = p.method(checker, "run")
-    visit_f = p.method(checker, "visit")
-    raises = [n for n in ast.walk(visit_f.node) if isinstance(n, ast.Raise)]
-    ok = False
-    for r in raises:
-        conds = common.guard_conditions(visit_f.node, r)
-        for c, pol in conds:
-            if pol and isinstance(c, ast.Compare) and len(c.ops) == 1 and isinstance(c.ops[0], ast.In):
-                ok = True
-    R.ob("B5c", "NodeCycleChecker.visit", ok, eng.where(visit_f), "visit() does not raise when the node is already on the path")
-    rec = False
-    calls_visit = False
-    for n in ast.walk(run_f.node):
-        if isinstance(n, ast.For) and isinstance(n.iter, ast.Call) and isinstance(n.iter.func, ast.Attribute) and n.iter.func.attr in ("iter_parents", "get_parents"):
-            for c in ast.walk(n):
-                if isinstance(c, ast.Call) and isinstance(c.func, ast.Attribute) and c.func.attr == "run" and not common.guard_conditions_inside(n, c):
-                    rec = True
-        if isinstance(n, ast.Call) and isinstance(n.func, ast.Attribute) and n.func.attr == "visit":
-            calls_visit = True
-    R.ob("B5c", "NodeCycleChecker.run", rec and calls_visit, eng.where(run_f), "run() must visit the node and recurse over every parent")
-
-    # ---- B7: Function keeps _parameters in sync with replaced children -------------------------------
-    R.rule("B7", "a node class with a separate _parameters list updates it whenever a child is replaced", 1)
-    for cls in family:
-        has_params = any("_parameters" in {s.path for s in eng.eff.summary(cls, f).sites if s.kind == "w"} for c2, f in eng.functions_of_family(cls) if c2 is cls)
-        if not has_params and not any(k.name == "Function" for k in cls.mro):
-            continue
-        f = cls.find_method("replace_child")
-        if f is None:
-            continue
-        w = eng.eff.trans_writes(cls, f)
-        ok = "_children" in w and "_parameters" in w
-        R.ob("B7", "%s.replace_child" % cls.name, ok, eng.where(f), "%s.replace_child (resolved to %s) replaces the child but not the function parameter: the function keeps reading the old node" % (cls.name, f.qualname) if not ok else "ok")
-
-
-    # ---- B10: a child that sits at several positions is replaced at all of them --------------------------
-    R.rule("B10", "replace_child substitutes the node at every position where it occurs (a container may hold the same node several times): the stores into _children / "
-                  "_parameters rebuild the whole list with an identity test per element, never one position found with list.index", 2)
-    seen_rc = set()
-    for cls in family:
-        f = cls.find_method("replace_child")
-        if f is None or id(f) in seen_rc:
-            continue
-        seen_rc.add(id(f))
-        for fld in ("_children", "_parameters"):
-            stores = [n for n in ast.walk(f.node) if isinstance(n, (ast.Assign, ast.AugAssign)) for t in (n.targets if isinstance(n, ast.Assign) else [n.target])
-                      if self_attr(t) == fld or (isinstance(t, ast.Subscript) and self_attr(t.value) == fld)]
+            summ = eng.eff.summary(cls, f)
+            stores = [s for s in summ.sites if s.kind == "w" and s.path == "_children"]
             if not stores:
                 continue
-            bad = [n for n in stores if not (isinstance(n, ast.Assign) and any(self_attr(t) == fld for t in n.targets) and isinstance(n.value, ast.ListComp)
-                                             and len(n.value.generators) == 1 and self_attr(common.resolve_local(f.node, n.value.generators[0].iter)) == fld and not n.value.generators[0].ifs
-                                             and isinstance(n.value.elt, ast.IfExp) and isinstance(n.value.elt.test, ast.Compare) and len(n.value.elt.test.ops) == 1
-                                             and isinstance(n.value.elt.test.ops[0], (ast.Is, ast.IsNot, ast.Eq, ast.NotEq)))]
-            R.ob("B10", "%s:%s" % (f.qualname, fld), not bad, eng.where(f, bad[0] if bad else None),
-                 "%s stores into %s at one position (%s): a node that occurs several times in the list is replaced only where list.index finds it first, the other positions keep "
-                 "the old node and the values read through them" % (f.qualname, fld, norm_stmt(bad[0])[:80] if bad else ""))
+            inserting = []
+            for s in stores:
+                st = s.node
+                if s.how == "rebind" and isinstance(st, ast.Assign):
+                    kind, names = inserted_elements(st.value)
+                    if kind == "some":
+                        inserting.append((s, names))
+                elif s.how == "content":
+                    inserting.append((s, ["<item assigned>"]))
+                elif s.how == "call-mutator":
+                    attr = s.node.func.attr
+                    if attr in ("append", "extend", "insert", "add"):
+                        inserting.append((s, ["<%s argument>" % attr]))
+            sat_parent = eng.satisfying_nodes(cls, f, has_add_parent_self)
+            # all-elements idiom: `for c in self._children: c.add_parent(self)` (zero iterations = nothing was inserted)
+            # (the loop may run over self._children or over the local list that was just stored there)
+            stored_locals = {st_.value.id for st_ in ast.walk(f.node) if isinstance(st_, ast.Assign) and any(self_attr(t) == "_children" for t in st_.targets) and isinstance(st_.value, ast.Name)}
+            for n in g.nodes:
+                if n.kind == "for" and (self_attr(n.expr) == "_children" or (isinstance(n.expr, ast.Name) and n.expr.id in stored_locals)) and isinstance(n.stmt.target, ast.Name):
+                    for c in ast.walk(n.stmt):
+                        if isinstance(c, ast.Call) and _is_call_on(c, "add_parent", arg0_self=True) and isinstance(c.func.value, ast.Name) \
+                                and c.func.value.id == n.stmt.target.id and not common.guard_conditions_inside(n.stmt, c):
+                            sat_parent.add(n.id)
+            for s, names in inserting:
+                cn = common.cfg_node_of(g, s.node)
+                ok, wit = g.all_paths_pass(cn.id, lambda n: n.id in sat_parent)
+                R.ob("B1a", "%s:%s" % (f.qualname, norm_stmt(s.node)), ok, eng.where(f, s.node),
+                     "%s inserts %s into _children without registering itself as parent on path %s" % (f.qualname, names, path_text(f, wit or [])) if not ok else
+                     "%s registers parent after inserting %s" % (f.qualname, names))
+            ok = eng.must_call(cls, f, has_mark_self)
+            # mark may happen before the store as well (it only sets flags) -> whole-method must-call
+            R.ob("B1b", f.qualname, ok, eng.where(f),
+                 "%s changes _children but does not mark itself for update on every path (parents keep values computed from the old children)" % f.qualname if not ok
+                 else "%s marks itself for update" % f.qualname)
 
+    # ---- B2: raw staleness writes are followed by notify_parents ------------------------------------
+    with R.guard("B2: raw staleness writes are followed by notify_parents"):
+        R.rule("B2", "every assignment self._stale=True / self._frozen=False outside __init__ is followed on all normal paths by self.notify_parents()", 2)
+        for cls, f in eng.functions_of_family(NodeBase):
+            if f.name == "__init__":
+                continue
+            g = eng.cfg(f)
+            for n in g.stmt_nodes():
+                st = n.stmt
+                if n.kind != "stmt" or not isinstance(st, ast.Assign):
+                    continue
+                for t in st.targets:
+                    a = self_attr(t)
+                    if a in ("_stale", "_frozen") and isinstance(st.value, ast.Constant):
+                        if (a == "_stale" and st.value.value is True) or (a == "_frozen" and st.value.value is False):
+                            sat = eng.satisfying_nodes(cls, f, has_notify_self)
+                            ok, wit = g.all_paths_pass(n.id, lambda m: m.id in sat)
+                            R.ob("B2", "%s:%s" % (f.qualname, norm_stmt(st)), ok, eng.where(f, st),
+                                 ("%s sets %s=%s without notifying parents (ancestors keep cached values): %s" % (f.qualname, a, st.value.value, path_text(f, wit or [])))
+                                 if not ok else "%s notifies parents after %s" % (f.qualname, norm_stmt(st)))
+
+    # ---- B3: value setters notify; update() overrides produce value and clear stale -------------------
+    with R.guard("B3: value setters notify; update() overrides produce value a"):
+        R.rule("B3a", "ValueNode.value setter (and every override with a normal exit) reaches self.notify_parents()", 1)
+        R.rule("B3b", "every update() override assigns self._value and self._stale=False on every normal path", 5)
+        R.rule("B3c", "update() reads its inputs through .value (self-updating), never another node's raw _value", 5)
+        R.rule("B3d", "update() evaluates the node's function at most once (no evaluation inside a loop, one call site per path)", 2)
+        for cls in family:
+            if not cls.is_subclass_of(ValueNode):
+                continue
+            pr = cls.props.get("value")
+            if pr is not None and pr.fset is not None and pr.fset.cls is cls:
+                f = pr.fset
+                g = eng.cfg(f)
+                has_normal_exit = g.exit.id in g.reachable_from([g.entry.id], exceptional=False)
+                if has_normal_exit:
+                    ok = eng.must_call(cls, f, has_notify_self)
+                    R.ob("B3a", f.qualname, ok, eng.where(f), "%s does not notify parents on every path" % f.qualname if not ok else "%s notifies parents" % f.qualname)
+                else:
+                    R.ob("B3a", f.qualname, True, eng.where(f), "%s always raises (read-only node)" % f.qualname, nontrivial=False)
+            f = cls.methods.get("update")
+            if f is None:
+                continue
+            g = eng.cfg(f)
+
+            def writes_value(n):
+                if n.kind not in ("stmt",):
+                    return False
+                st = n.stmt
+                tg = st.targets if isinstance(st, ast.Assign) else ([st.target] if isinstance(st, (ast.AugAssign, ast.AnnAssign)) else [])
+                for t in tg:
+                    if self_attr(t) == "_value":
+                        return True
+                    if isinstance(t, ast.Subscript) and self_attr(t.value) == "_value":
+                        return True
+                return False
+
+            def clears_stale(n):
+                st = n.stmt
+                return n.kind == "stmt" and isinstance(st, ast.Assign) and any(self_attr(t) == "_stale" for t in st.targets) and isinstance(st.value, ast.Constant) and st.value.value is False
+
+            # in-place fill inside a loop: the loop header dominates; accept a write inside a for-body when the loop iterates over children
+            wv_nodes = [n for n in g.stmt_nodes() if writes_value(n)]
+            ok_v = bool(wv_nodes)
+            if wv_nodes:
+                ok_path, _ = g.all_paths_pass(g.entry.id, lambda n: writes_value(n) or (n.kind == "for" and any(writes_value(m) for m in g.nodes if m.stmt is not None and _inside(n.stmt, m.stmt))))
+                ok_v = ok_path
+            ok_s, _ = g.all_paths_pass(g.entry.id, clears_stale)
+            R.ob("B3b", f.qualname, ok_v and ok_s, eng.where(f),
+                 ("%s: a normal path leaves update() without %s" % (f.qualname, "assigning _value" if not ok_v else "clearing _stale")) if not (ok_v and ok_s)
+                 else "%s assigns _value and clears _stale" % f.qualname)
+            raw = [n for n in walk_no_nested(f.node) if isinstance(n, ast.Attribute) and n.attr == "_value" and not is_self(n.value)]
+            R.ob("B3c", f.qualname, not raw, eng.where(f, raw[0] if raw else None),
+                 "%s reads a child's raw _value (%s) - a stale child would be used without being updated" % (f.qualname, norm_stmt(raw[0]) if raw else ""))
+            evals = []
+            for n in g.stmt_nodes():
+                for c in eng.calls_in_parts(n.ast_parts()):
+                    if is_self(c.func) or (isinstance(c.func, ast.Attribute) and is_self(c.func.value) and c.func.attr in ("_func", "func", "__call__")):
+                        evals.append((n, c))
+            if evals:
+                in_loop = [n for n, c in evals if common.in_loop(f.node, c)]
+                multi = False
+                if len(evals) > 1:
+                    for n1, _ in evals:
+                        for n2, _ in evals:
+                            if n1.id != n2.id and n2.id in g.reachable_from([n1.id], exceptional=False) and n1.id != n2.id:
+                                multi = True
+                R.ob("B3d", f.qualname, not in_loop and not multi, eng.where(f), "%s may evaluate the node function more than once per update" % f.qualname)
+
+    # ---- B9: a node depends on the nodes it was given (an alias of an alias is a parent of that alias, not of its target)
+    with R.guard("B9: a node depends on the nodes it was given (an alias of an"):
+        R.rule("B9", "node constructors store the nodes they are given as children unchanged: no argument is replaced by something reached through it (ref.ref, node.children …) "
+                     "before it becomes a child", 2)
+        for cls in family:
+            ini = cls.methods.get("__init__")
+            if ini is None:
+                continue
+            params = [a.arg for a in ini.node.args.args[1:]]
+            child_params = set()
+            for n in ast.walk(ini.node):
+                if isinstance(n, ast.Assign) and any(self_attr(t) in ("ref", "parameters", "_parameters", "_children") for t in n.targets):
+                    child_params |= {x.id for x in ast.walk(n.value) if isinstance(x, ast.Name) and x.id in params}
+                if isinstance(n, ast.Call) and isinstance(n.func, ast.Attribute) and is_self(n.func.value) and n.func.attr in ("set_children", "add_child", "set_parents"):
+                    child_params |= {x.id for a in n.args for x in ast.walk(a) if isinstance(x, ast.Name) and x.id in params}
+            for q in sorted(child_params):
+                bad = []
+                for n in ast.walk(ini.node):
+                    if isinstance(n, ast.Assign) and any(isinstance(t, ast.Name) and t.id == q for t in n.targets):
+                        for x in ast.walk(n.value):
+                            if isinstance(x, (ast.Attribute, ast.Subscript)) and any(isinstance(y, ast.Name) and y.id == q for y in ast.walk(x.value)):
+                                bad.append("%s = %s" % (q, " ".join(ast.unparse(n.value).split())))
+                R.ob("B9", "%s.__init__:%s" % (cls.name, q), not bad, eng.where(ini),
+                     "%s.__init__ replaces its argument `%s` by something reached through it (%s) before storing it as a child: the node no longer depends on the node it was given "
+                     "(replacing or freezing that node is not seen)" % (cls.name, q, "; ".join(bad)))
+
+    # ---- B8: update() leaves no stale child behind (dependency-only children included)
+    with R.guard("B8: update() leaves no stale child behind (dependencyonly ch"):
+        R.rule("B8", "update() of a node whose children are not all function parameters brings every stale, non-frozen child up to date before it clears its own flag "
+                     "(otherwise a fresh node sits above a stale child and later marks of that child are swallowed)", 1)
+        for cls in family:
+            f = cls.methods.get("update")
+            if f is None:
+                continue
+            if not any("_parameters" in {s.path for s in eng.eff.summary(cls, ff).sites} for c2, ff in eng.functions_of_family(cls) if c2 is cls):
+                continue
+            g = eng.cfg(f)
+            ok = False
+            for n in g.nodes:
+                if n.kind != "for":
+                    continue
+                it = n.expr
+                over_children = (isinstance(it, ast.Call) and isinstance(it.func, ast.Attribute) and it.func.attr == "get_children" and is_self(it.func.value)) or self_attr(it) == "_children"
+                if not over_children or not isinstance(n.stmt.target, ast.Name):
+                    continue
+                tv = n.stmt.target.id
+                for c in ast.walk(n.stmt):
+                    if isinstance(c, ast.Call) and isinstance(c.func, ast.Attribute) and c.func.attr == "update" and isinstance(c.func.value, ast.Name) and c.func.value.id == tv:
+                        nf = common.conj_normal_form([(t, pol) for t, pol in common.guard_conditions_inside(n.stmt, c)])
+                        names = {a.split(".")[-1] for a, _ in nf}
+                        if not nf or all((("stale" in a and pol) or ("frozen" in a and not pol)) for a, pol in nf):
+                            ok = True
+                    if isinstance(c, ast.Attribute) and c.attr == "value" and isinstance(c.value, ast.Name) and c.value.id == tv and not common.guard_conditions_inside(n.stmt, c):
+                        ok = True
+                if ok:
+                    clears = [m for m in g.stmt_nodes() if m.kind == "stmt" and isinstance(m.stmt, ast.Assign) and any(self_attr(t) == "_stale" for t in m.stmt.targets)]
+                    ok = all(g.dominated_by(m.id, lambda k, nid=n.id: k.id == nid)[0] for m in clears)
+            R.ob("B8", f.qualname, ok, eng.where(f), "%s evaluates its parameters but leaves dependency-only children stale: the node becomes fresh above a stale child, "
+                 "so a later mark_for_update of that child stops there and this node keeps its cached value" % f.qualname)
+
+    # ---- B6: value getter updates iff stale and not frozen ------------------------------------------
+    with R.guard("B6: value getter updates iff stale and not frozen"):
+        R.rule("B6", "value getter: calls self.update() exactly under (stale and not frozen) and returns self._value", 1)
+        for cls in family:
+            pr = cls.props.get("value")
+            if pr is None or pr.fget is None or pr.fget.cls is not cls:
+                continue
+            f = pr.fget
+            g = eng.cfg(f)
+            if g.exit.id not in g.reachable_from([g.entry.id], exceptional=False):
+                continue  # Empty.value: always raises
+            upd = [n for n in g.stmt_nodes() if any(_is_call_on(c, "update", recv_self=True) for c in eng.calls_in_parts(n.ast_parts()))]
+            ok = False
+            why = "no self.update() call"
+            if upd:
+                conds = common.guard_conditions(f.node, upd[0].stmt)
+                nf = common.conj_normal_form(conds)
+                want = {("stale", True), ("frozen", False)}
+                ok = nf == want
+                why = "update() is guarded by %s, expected {stale, not frozen}" % sorted(nf) if not ok else ""
+            rets = [n for n in g.stmt_nodes() if isinstance(n.stmt, ast.Return)]
+            ret_ok = bool(rets) and all(self_attr(n.stmt.value) == "_value" for n in rets)
+            R.ob("B6", f.qualname, ok and ret_ok, eng.where(f), ("%s: %s" % (f.qualname, why or "does not return self._value")) if not (ok and ret_ok) else "%s ok" % f.qualname)
+
+    # ---- B4: mark_for_update / notify_parents shape -------------------------------------------------
+    with R.guard("B4: mark_for_update / notify_parents shape"):
+        R.rule("B4a", "mark_for_update sets _stale and notifies parents exactly when (not stale and not frozen); only Parameter may override it with a no-op", 2)
+        R.rule("B4b", "notify_parents calls mark_for_update on every parent (only RootNode, which has no parents, may be a no-op)", 2)
+        for cls in family:
+            f = cls.methods.get("mark_for_update")
+            if f is not None:
+                body = [s for s in f.node.body if not (isinstance(s, ast.Expr) and isinstance(s.value, ast.Constant))]
+                trivial = all(isinstance(s, ast.Pass) for s in body)
+                if trivial:
+                    ok = cls.is_subclass_of(Parameter)
+                    R.ob("B4a", f.qualname, ok, eng.where(f), "%s is a no-op: updates of its inputs never reach its parents" % f.qualname if not ok else "%s: leaf constant, no-op permitted" % f.qualname)
+                else:
+                    g = eng.cfg(f)
+                    sets = [n for n in g.stmt_nodes() if n.kind == "stmt" and isinstance(n.stmt, ast.Assign) and any(self_attr(t) == "_stale" for t in n.stmt.targets)]
+                    notif = [n for n in g.stmt_nodes() if has_notify_self(n)]
+                    ok = bool(sets) and bool(notif)
+                    why = "does not set _stale and notify parents"
+                    second = False
+                    if ok:
+                        for n in sets + notif:
+                            nf = common.conj_normal_form(common.guard_conditions(f.node, n.stmt))
+                            if nf == {("stale", False), ("frozen", False)}:
+                                continue
+                            # a node that is already stale still tells parents that are not stale (a failed update under a Fallback leaves such a pair behind)
+                            extra = {a for a in nf if a not in (("stale", True), ("frozen", False))}
+                            if n in notif and ("stale", True) in nf and ("frozen", False) in nf and len(extra) == 1 and \
+                                    "any((not _p.stale for _p in self.iter_parents()))" in "".join(x for x, pol in extra if pol).replace("any(not ", "any((not ").replace("_parents()))", "_parents()))"):
+                                second = True
+                                continue
+                            ok = False
+                            why = "%s is guarded by %s, expected {not stale, not frozen}" % (norm_stmt(n.stmt), sorted(nf))
+                        if ok and cls.name == "NodeBase":
+                            R.ob("B4a", f.qualname + ":stale node, fresh parent", second, eng.where(f),
+                                 "%s returns early for every stale node: a node left stale by a failed update (its Fallback parent went on with an alternative) swallows the "
+                                 "notification when its input is repaired, and the Fallback keeps the old value" % f.qualname)
+                        # value of the assignment
+                        for n in sets:
+                            if not (isinstance(n.stmt.value, ast.Constant) and n.stmt.value.value is True):
+                                ok = False
+                                why = "assigns %s" % norm_stmt(n.stmt)
+                    R.ob("B4a", f.qualname, ok, eng.where(f), "%s: %s" % (f.qualname, why) if not ok else "%s ok" % f.qualname)
+            f = cls.methods.get("notify_parents")
+            if f is not None:
+                body = [s for s in f.node.body if not (isinstance(s, ast.Expr) and isinstance(s.value, ast.Constant))]
+                trivial = all(isinstance(s, ast.Pass) for s in body)
+                if trivial:
+                    ok = cls.name == "RootNode"
+                    R.ob("B4b", f.qualname, ok, eng.where(f), "%s is a no-op" % f.qualname)
+                else:
+                    ok = False
+                    for n in ast.walk(f.node):
+                        if isinstance(n, ast.For) and isinstance(n.iter, ast.Call) and isinstance(n.iter.func, ast.Attribute) and n.iter.func.attr in ("iter_parents", "get_parents") and is_self(n.iter.func.value) and isinstance(n.target, ast.Name):
+                            for c in ast.walk(n):
+                                if isinstance(c, ast.Call) and _is_call_on(c, "mark_for_update") and isinstance(c.func.value, ast.Name) and c.func.value.id == n.target.id:
+                                    if not common.guard_conditions_inside(n, c):
+                                        ok = True
+                    R.ob("B4b", f.qualname, ok, eng.where(f), "%s does not unconditionally mark every parent for update" % f.qualname if not ok else "%s ok" % f.qualname)
+
+    # ---- B5: Nexus edits end in a cycle check -------------------------------------------------------
+    with R.guard("B5: Nexus edits end in a cycle check"):
+        R.rule("B5", "every Nexus method that inserts a node or an edge runs NodeCycleChecker on every normal path after the edit", 2)
+        R.rule("B5c", "NodeCycleChecker: raises when a node re-occurs on the current path and recurses over all parents", 2)
+
+        def is_cycle_check(n):
+            for c in eng.calls_in_parts(n.ast_parts()):
+                if isinstance(c.func, ast.Attribute) and c.func.attr == "run" and isinstance(c.func.value, ast.Call):
+                    k = p.resolve_expr_to_class(mod, c.func.value.func)
+                    if k is not None and k.name == "NodeCycleChecker":
+                        return True
+            return False
+
+        def is_struct_edit(n):
+            for c in eng.calls_in_parts(n.ast_parts()):
+                if isinstance(c.func, ast.Attribute) and c.func.attr in ("add_child", "replace", "replace_child", "set_children", "add_parameter") and not is_self(c.func.value):
+                    return True
+            if n.kind == "stmt" and isinstance(n.stmt, ast.Assign):
+                for t in n.stmt.targets:
+                    if isinstance(t, ast.Subscript) and self_attr(t.value) == "_nodes":
+                        return True
+            return False
+
+        for name, f in sorted(Nexus.methods.items()):
+            g = eng.cfg(f)
+            edits = [n for n in g.stmt_nodes() if is_struct_edit(n)]
+            if not edits:
+                continue
+            sat = eng.satisfying_nodes(Nexus, f, is_cycle_check)
+            for n in edits:
+                ok, wit = g.all_paths_pass(n.id, lambda m: m.id in sat)
+                R.ob("B5", "%s:%s" % (f.qualname, norm_stmt(n.stmt)), ok, eng.where(f, n.stmt),
+                     "%s edits the graph (%s) and can return without a cycle check: %s" % (f.qualname, norm_stmt(n.stmt)[:60], path_text(f, wit or [])) if not ok else "%s: cycle check after %s" % (f.qualname, norm_stmt(n.stmt)[:60]))
+        checker = p.cls(NEXUS_MOD, "NodeCycleChecker")
+        run_f = p.method(checker, "run")
+        visit_f = p.method(checker, "visit")
+        raises = [n for n in ast.walk(visit_f.node) if isinstance(n, ast.Raise)]
+        ok = False
+        for r in raises:
+            conds = common.guard_conditions(visit_f.node, r)
+            for c, pol in conds:
+                if pol and isinstance(c, ast.Compare) and len(c.ops) == 1 and isinstance(c.ops[0], ast.In):
+                    ok = True
+        R.ob("B5c", "NodeCycleChecker.visit", ok, eng.where(visit_f), "visit() does not raise when the node is already on the path")
+        rec = False
+        calls_visit = False
+        for n in ast.walk(run_f.node):
+            if isinstance(n, ast.For) and isinstance(n.iter, ast.Call) and isinstance(n.iter.func, ast.Attribute) and n.iter.func.attr in ("iter_parents", "get_parents"):
+                for c in ast.walk(n):
+                    if isinstance(c, ast.Call) and isinstance(c.func, ast.Attribute) and c.func.attr == "run" and not common.guard_conditions_inside(n, c):
+                        rec = True
+            if isinstance(n, ast.Call) and isinstance(n.func, ast.Attribute) and n.func.attr == "visit":
+                calls_visit = True
+        R.ob("B5c", "NodeCycleChecker.run", rec and calls_visit, eng.where(run_f), "run() must visit the node and recurse over every parent")
+
+    # ---- B7: Function keeps _parameters in sync with replaced children -------------------------------
+    with R.guard("B7: Function keeps _parameters in sync with replaced childre"):
+        R.rule("B7", "a node class with a separate _parameters list updates it whenever a child is replaced", 1)
+        for cls in family:
+            has_params = any("_parameters" in {s.path for s in eng.eff.summary(cls, f).sites if s.kind == "w"} for c2, f in eng.functions_of_family(cls) if c2 is cls)
+            if not has_params and not any(k.name == "Function" for k in cls.mro):
+                continue
+            f = cls.find_method("replace_child")
+            if f is None:
+                continue
+            w = eng.eff.trans_writes(cls, f)
+            ok = "_children" in w and "_parameters" in w
+            R.ob("B7", "%s.replace_child" % cls.name, ok, eng.where(f), "%s.replace_child (resolved to %s) replaces the child but not the function parameter: the function keeps reading the old node" % (cls.name, f.qualname) if not ok else "ok")
+
+    # ---- B10: a child that sits at several positions is replaced at all of them --------------------------
+    with R.guard("B10: a child that sits at several positions is replaced at a"):
+        R.rule("B10", "replace_child substitutes the node at every position where it occurs (a container may hold the same node several times): the stores into _children / "
+                      "_parameters rebuild the whole list with an identity test per element, never one position found with list.index", 2)
+        seen_rc = set()
+        for cls in family:
+            f = cls.find_method("replace_child")
+            if f is None or id(f) in seen_rc:
+                continue
+            seen_rc.add(id(f))
+            for fld in ("_children", "_parameters"):
+                stores = [n for n in ast.walk(f.node) if isinstance(n, (ast.Assign, ast.AugAssign)) for t in (n.targets if isinstance(n, ast.Assign) else [n.target])
+                          if self_attr(t) == fld or (isinstance(t, ast.Subscript) and self_attr(t.value) == fld)]
+                if not stores:
+                    continue
+                bad = [n for n in stores if not (isinstance(n, ast.Assign) and any(self_attr(t) == fld for t in n.targets) and isinstance(n.value, ast.ListComp)
+                                                 and len(n.value.generators) == 1 and self_attr(common.resolve_local(f.node, n.value.generators[0].iter)) == fld and not n.value.generators[0].ifs
+                                                 and isinstance(n.value.elt, ast.IfExp) and isinstance(n.value.elt.test, ast.Compare) and len(n.value.elt.test.ops) == 1
+                                                 and isinstance(n.value.elt.test.ops[0], (ast.Is, ast.IsNot, ast.Eq, ast.NotEq)))]
+                R.ob("B10", "%s:%s" % (f.qualname, fld), not bad, eng.where(f, bad[0] if bad else None),
+                     "%s stores into %s at one position (%s): a node that occurs several times in the list is replaced only where list.index finds it first, the other positions keep "
+                     "the old node and the values read through them" % (f.qualname, fld, norm_stmt(bad[0])[:80] if bad else ""))
 
 def _inside(outer, inner):
     for n in ast.walk(outer):
